@@ -56,7 +56,7 @@ RuleNames == {
     "C11.EmitWellFormed", "C11.EmitConnId",
     "C14.NeverAboveLink", "C14.OrdinaryWithinProven", "C14.OneProbe", "C14.Converges", "C14.LogProbes", "C14.CeilingOnlyByFailure",
     "C17.FinSeq", "C17.FinAfterData", "C17.NothingAfterFin", "C17.PeerFinInOrder", "C17.FinAnswered",
-    "C17.ResetAborts", "C17.ResetNoReply", "C17.SynAckForm", "C17.SynAckRepeats", "C17.Transition", "C17.HandshakeGate",
+    "C17.ResetAborts", "C17.ResetNoReply", "C17.SynAckForm", "C17.SynAckRepeats", "C17.Transition", "C17.HandshakeGate", "C17.FinTimerArmed",
     "C19.TxBounded", "C19.WriteNotStuck" }
 
 EmptyFn == << >>
@@ -612,6 +612,8 @@ Poll(r) ==
                   \* the retransmission timer runs while transmitted data or a FIN awaits acknowledgement
                   <<"C06.TimerArmed", (SentUnacked(e) \/ FinUnacked(e)) /\ e.dying = "" /\ r.state # "closed",
                                       r.t_rtx >= 0>>,
+                  \* C17 "its FIN ... is retransmitted on timeout until acknowledged or the connection gives up"
+                  <<"C17.FinTimerArmed", FinUnacked(e) /\ e.dying = "" /\ r.state # "closed", r.t_rtx >= 0>>,
                   <<"C06.RtoFires", (SentUnacked(e) \/ FinUnacked(e)) /\ r.t_rtx >= 0 /\ r.t_rtx # e.tRtx, TRUE>>,
                   <<"C06.RtoRange", TRUE, R_C06_RtoRange(r.rto)>>,
                   \* C14 "settles ... on the largest payload size that fits": the search ceiling comes down only on evidence that a
